@@ -30,6 +30,68 @@ def _inline(n, r):
 _CACHE = {}
 
 
+def inline_inherent(prefixes, exclude=()):
+    """Inline predicate: inherent functions / free functions (not trait methods) whose path starts with one of
+    `prefixes` are analysed in place - so that splitting a function into private helpers does not change the result."""
+    def pred(n, r):
+        if r in exclude or not r.startswith(tuple(prefixes)):
+            return False
+        b = prog().unit("scpi").by_npath().get(r) if hasattr(prog().unit("scpi"), "by_npath") else None
+        if b is None:
+            for u in prog().units:
+                for x in u.bodies:
+                    if x.npath == r:
+                        b = x
+                        break
+                if b is not None:
+                    break
+        return b is not None and not b.impl_trait and not b.in_trait and b.kind in ("Fn", "AssocFn")
+    return pred
+
+
+def enclosing_fn(P, npath):
+    """the named function a closure / nested fn belongs to"""
+    for u in P.units:
+        for b in u.bodies:
+            if b.npath == npath:
+                cur = b
+                seen = 0
+                while cur is not None and cur.parent_fn and seen < 6:
+                    nxt = None
+                    for x in u.bodies:
+                        if x.path == cur.parent_fn or x.npath == facts.strip_generics(cur.parent_fn):
+                            nxt = x
+                            break
+                    if nxt is None:
+                        return facts.strip_generics(cur.parent_fn)
+                    cur = nxt
+                    seen += 1
+                return cur.npath
+    return npath
+
+
+def only_reached_from(P, npath, roots, seen=()):
+    """True if `npath` is one of `roots` (after mapping closures to their function) or a crate-private helper
+    whose every call site is (transitively) such a function."""
+    npath = enclosing_fn(P, npath)
+    if npath in roots:
+        return True
+    if npath in seen:
+        return False
+    body = None
+    callers = set()
+    for u in P.units:
+        for b in u.bodies:
+            if b.npath == npath:
+                body = b
+            for c in b.calls(with_promoted=True):
+                if c.rname == npath or c.name == npath:
+                    callers.add(b.npath)
+    if body is None or body.j.get("vis") != "Restricted" or not callers:
+        return False
+    return all(only_reached_from(P, c, roots, seen + (npath,)) for c in callers)
+
+
 def prog():
     if "P" not in _CACHE:
         _CACHE["P"] = facts.program("dflt")
@@ -39,7 +101,7 @@ def prog():
 def engine(extra_models=None, inline=None):
     P = prog()
     u = P.unit("scpi")
-    models = dict(M.FOLD_MODELS)
+    models = M.with_lists(M.FOLD_MODELS)
     models.update(M.STREAM_MODELS)
     if extra_models:
         models.update(extra_models)
@@ -142,6 +204,68 @@ def exec_table():
     _CACHE["exec"] = rows
     _CACHE["exec_eng"] = eng
     return rows
+
+
+# ---- exec on a branch with a concrete list of abstract children -------------------------------------------------------
+CHILD_TYPES = [(k, d, m) for k in ("Leaf", "Branch") for d in (True, False) for m in (True, False)]
+
+
+def child_lists(maxlen=2):
+    out = [()]
+    layer = [()]
+    for _ in range(maxlen):
+        layer = [l + (c,) for l in layer for c in CHILD_TYPES]
+        out.extend(layer)
+    return out
+
+
+def m_match_header(eng, st, fr, t, name, rname, args):
+    """Token::match_program_header(token, child_name): the outcome is an attribute of the abstract child whose name
+    is compared (the comparison itself is property C03)"""
+    nm = M._bytes_of(eng, st, args[1])
+    kids = st.extra.get("kids") or {}
+    tok = eng.resolve(st, args[0])
+    while isinstance(tok, RefV):
+        tok = eng.resolve(st, load(Loc(tok.cell, tok.path)))
+    tokname = tok.name if isinstance(tok, EnumV) else "?"
+    st.trace.append(fdai.Event("call", name, rname, (("tok", tokname), ("name", nm)), fr.bi, t.get("line"), len(st.frames), fr.body.npath))
+    if nm is None or bytes(nm) not in kids:
+        return st.fresh(("ret", name, "unknown-child"))
+    if tokname not in ("ProgramMnemonic", "CharacterProgramData"):
+        return K(False)
+    return K(kids[bytes(nm)])
+
+
+def exec_children(children, stream_names):
+    """Run Node::exec on a Branch whose `sub` is the given list of (kind, default, matches) children."""
+    key = "execkids"
+    if key not in _CACHE:
+        _CACHE[key] = engine({"scpi::parser::tokenizer::token::Token::match_program_header": m_match_header})
+        _CACHE[key].loop_limit = 8
+    eng = _CACHE[key]
+    body = eng.unit.body(EXEC)
+    st = fdai.State()
+    M.set_stream(st, [M.item(eng, n) for n in stream_names] + [M.UNKNOWN])
+    cells = []
+    kids = {}
+    for i, (kind, dflt, matches) in enumerate(children):
+        nm = b"N%d" % i
+        kids[nm] = matches
+        node = EnumV(NODE, kind, eng.variant_discr(NODE, kind), {0: RefV(Cell(fdai.BytesV(nm), "name%d" % i)), 1: K(dflt), 2: SymV("payload%d" % i, "handler-or-sub")})
+        cells.append(Cell(node, "child%d" % i))
+    st.extra["kids"] = kids
+    parent = EnumV(NODE, "Branch", eng.variant_discr(NODE, "Branch"), {0: SymV("node-name", "name"), 1: SymV("node-default", "default"), 2: RefV(Cell(fdai.ListV(cells), "sub"))})
+    args, leafcell, selfcell = mk_args(parent)
+    st.extra["cells"] = {"leaf": leafcell, "self": selfcell}
+    out = []
+    for r in eng.run(body, args, st):
+        pi = PathInfo(r)
+        cs = r.extra.get("cells", {})
+        lc, sc = cs.get("leaf"), cs.get("self")
+        v = lc.v if lc is not None else None
+        pi.leaf_after = "self" if isinstance(v, RefV) and v.cell is sc else "unchanged" if isinstance(v, SymV) and v.id == "oldleaf" else "other:%r" % (v,)
+        out.append(pi)
+    return out
 
 
 def closure_kind(eng, defpath):
